@@ -59,6 +59,9 @@ def grad(val, tens, core_indices = None):
         list[torch.tensor]: the list of cores representing the derivative of the expression w.r.t the tensor.
     """
     val.retain_grad()
+    # the .grad buffers accumulate over backward passes: start from empty ones, so that the derivative of val is returned
+    for c in tens.cores:
+        c.grad = None
     val.backward()
     if core_indices == None:
         cores = [ c.grad for c in tens.cores]
@@ -81,6 +84,9 @@ def grad_list(val, tensors, all_in_one = True):
     Returns:
         list[list[torchtt.TT]]: the resulting derivatives.
     """
+    for t in tensors:
+        for c in t.cores:
+            c.grad = None
     val.backward()
     cores_list = []
     if all_in_one:
